@@ -25,15 +25,18 @@ Families (vmc.families): all {1,j,-1} complex and all {0,1,-1} integer matrices 
 generic complex / real members, nearly dependent members (kappa 1e2,1e4,1e6), members with tied
 singular values.  Members above the relation's condition bound are excluded and counted.
 """
+import contextlib
 import itertools
 import math
+import os
+import traceback
 
 import numpy as np
 
 from vmc import families as F
 from vmc import numerics as N
 from vmc.parallel import run_shards, shard
-from vmc.report import Check
+from vmc.report import Broken, Check
 
 PID = "C20"
 LEVEL = "exploration"
@@ -65,6 +68,37 @@ K_COV = 1e8         # covariance condition bound for whitening / update
 C = 1e3             # err <= C * 2^-52 * kappa_eff * scale
 GAP_REPEATED = 1e-6   # eigenvalues closer than this (relative to ||C||) count as repeated (outcome classes)
 GAP_CLUSTER = 1e-3    # signature class of a whitening failure: smallest relative eigenvalue gap below / above
+
+
+VERIF_ROOT = os.path.dirname(os.path.dirname(os.path.abspath(__file__)))
+
+
+def _origin(exc):
+    """'library' if the innermost frame that belongs to pyphysim or to /verif is pyphysim's, else 'check'"""
+    for fr in reversed(traceback.extract_tb(exc.__traceback__)):
+        fn = os.path.abspath(fr.filename)
+        if "/pyphysim/" in fn and not fn.startswith(VERIF_ROOT + os.sep):
+            return "library"
+        if fn.startswith(VERIF_ROOT + os.sep):
+            return "check"
+    return "check"
+
+
+@contextlib.contextmanager
+def guard(chk, sig_prefix, case):
+    """chk.guard for VALID calls: an exception raised inside pyphysim is a violation; an exception whose
+    innermost own frame is the check's code means the check is broken (exit 2), never a property verdict"""
+    with chk.guard(sig_prefix, case):
+        try:
+            yield
+        except (KeyboardInterrupt, SystemExit, Broken):
+            raise
+        except BaseException as e:  # noqa
+            if _origin(e) == "check":
+                raise Broken("check code raised %s: %s at %s (case %s)" % (
+                    type(e).__name__, e, traceback.extract_tb(e.__traceback__)[-1][:3],
+                    {k: v for k, v in case.items() if k in ("part", "fam", "member", "kernel")}))
+            raise
 
 
 def bound(k):
@@ -254,7 +288,7 @@ def alias_battery(chk, kern, fn, arrs, case, kappa=1.0, compare_layouts=True):
     fam, mem = case.get("fam", ""), case.get("member", 0)
     if fam.startswith(("cunit3", "rint3")) and (fam.endswith("_eigonly") or (isinstance(mem, int) and mem % 4)):
         return          # exhaustive small-entry families: every 4th member (stated in RULE); all other families: all
-    with chk.guard((kern, "aliasing", "reference_call"), case):
+    with guard(chk, (kern, "aliasing", "reference_call"), case):
         base = flat(fn(*[np.array(a) for a in arrs]))
         for how in LAYOUTS:
             chk.count("eval_aliasing")
@@ -291,7 +325,7 @@ def run_projection(chk, case, A, kappa):
     m, n = A.shape
     k2 = kappa ** 2
     chk.outcome("proj_dims", (m, n))       # outcome classes are recorded from the oracle side, before
-    with chk.guard(("projection",), case):  # the library is called: a crashing kernel is a violation, not vacuity
+    with guard(chk, ("projection",), case):  # the library is called: a crashing kernel is a violation, not vacuity
         chk.count("eval_projection")
         U, _, _ = np.linalg.svd(np.asarray(A, dtype=complex), full_matrices=False)
         Pref = U @ H(U)
@@ -357,7 +391,7 @@ def run_projection(chk, case, A, kappa):
 def run_gmd(chk, case, A, kappa, sv):
     from pyphysim.util import misc
     m, n = A.shape
-    with chk.guard(("gmd",), case):
+    with guard(chk, ("gmd",), case):
         chk.count("eval_gmd")
         U, S, Vh = np.linalg.svd(np.array(A))
         U0, S0, V0 = U.copy(), S.copy(), Vh.copy()
@@ -376,9 +410,9 @@ def run_gmd(chk, case, A, kappa, sv):
             chk.fail(("gmd", "Q_not_unitary"), case, observed=N.err(H(Q) @ Q, np.eye(m)), expected=0)
         if not N.close(H(P) @ P, np.eye(n), kappa, C):
             chk.fail(("gmd", "P_not_unitary"), case, observed=N.err(H(P) @ P, np.eye(n)), expected=0)
-        if np.any(np.tril(R, -1) != 0):
-            chk.fail(("gmd", "R_not_upper_triangular"), case, observed=np.max(np.abs(np.tril(R, -1))),
-                     expected=0)
+        low = float(np.max(np.abs(np.tril(R, -1)))) if R.size else 0.0
+        if not low <= C * N.EPS * kappa * scA:           # value level: zero up to rounding (not bitwise)
+            chk.fail(("gmd", "R_not_upper_triangular"), case, observed=low, expected=0)
         gm = math.exp(float(np.mean(np.log(sv))))
         dg = np.diag(R)[:n]
         if not N.close(dg, np.full(n, gm), 1.0, C):
@@ -402,7 +436,7 @@ def run_lrsv(chk, case, A, orient):
     for k in range(max(0, c - r), c + 1):
         cs = dict(case, kernel="lrsv", orient=orient, k=k)
         chk.outcome("lrsv_split", (orient, c, k))
-        with chk.guard(("lrsv", orient), cs):
+        with guard(chk, ("lrsv", orient), cs):
             chk.count("eval_lrsv")
             V0, V1, S = misc.least_right_singular_vectors(B, k)
             V0, V1, S = np.asarray(V0), np.asarray(V1), np.asarray(S)
@@ -445,7 +479,7 @@ def run_eig(chk, case, Cm, which):
         for k in range(0, Nn + 1):
             cs = dict(case, kernel=fn, matrix=which, k=k)
             chk.outcome("eig_select", (fn, Nn, k, mult > 0))
-            with chk.guard((fn, which), cs):
+            with guard(chk, (fn, which), cs):
                 chk.count("eval_" + fn)
                 V, D = f(np.array(Cm), k)
                 V, D = np.asarray(V), np.asarray(D)
@@ -462,6 +496,9 @@ def run_eig(chk, case, Cm, which):
                 nr = np.linalg.norm(V, axis=0)
                 if N.err(nr, np.ones(k)) > C * N.EPS:
                     chk.fail((fn, "not_unit_norm"), cs, observed=nr, expected=1)
+                if not np.all(np.isfinite(V)):
+                    chk.fail((fn, "not_finite"), cs, observed=V, expected="finite eigenvectors")
+                    continue
                 smin = np.linalg.svd(V, compute_uv=False)[-1]
                 if not smin > 1e-6:
                     chk.fail((fn, "columns_dependent",
@@ -503,7 +540,7 @@ def run_whiten(chk, case, Cm, which):
     repeated = mingap <= GAP_REPEATED
     cs = dict(case, kernel="whiten", matrix=which)
     chk.outcome("whiten", (Nn, repeated, kdec(kc)))
-    with chk.guard(("calc_whitening_matrix", which), cs):
+    with guard(chk, ("calc_whitening_matrix", which), cs):
         chk.count("eval_whiten")
         C0 = np.array(Cm)
         W = np.asarray(misc.calc_whitening_matrix(C0))
@@ -536,7 +573,7 @@ def run_rank_deficient(chk, case, A):
         how = "raised:" + type(e).__name__
     chk.outcome("invalid_call", ("Projection(rank deficient)", how,
                                  "argument_unchanged" if np.array_equal(A0, A) else "argument_changed"))
-    with chk.guard(("after_invalid_call", "Projection(rank deficient)"), case):
+    with guard(chk, ("after_invalid_call", "Projection(rank deficient)"), case):
         # what IS required: a subsequent VALID projection is right
         G = F.generic(0, (A.shape[0], 1), True, tag=23)
         Ug = G / np.linalg.norm(G)
@@ -685,7 +722,7 @@ def run_update(chk, case):
                                        "hermitian" if herm else "general",
                                        "d<0" if np.any(np.real(d) < 0) else "d>=0",
                                        "complex_d" if np.iscomplexobj(d) else "real_d"))
-    with chk.guard(("update_inv_sum_diag",), case):
+    with guard(chk, ("update_inv_sum_diag",), case):
         chk.count("eval_update")
         X0 = X.copy()
         R = np.asarray(misc.update_inv_sum_diag(X, d))
@@ -794,7 +831,7 @@ def run_chordal(chk, case):
     bucket = "0" if dref < 1e-9 else ("max" if abs(dref - math.sqrt(min(k, m - k))) < 1e-9 else "mid")
     chk.outcome("chordal_bucket", (m, k, bucket))
     chk.outcome("kappa_decade", kdec(kap))
-    with chk.guard(("chordal",), case):
+    with guard(chk, ("chordal",), case):
         chk.count("eval_chordal")
         t1 = C * N.EPS * kap * sq * 4              # QR route: eps*kappa
         t2 = C * N.EPS * kap ** 2 * sq * 4         # (A^H A)^-1 route: eps*kappa^2
@@ -843,7 +880,7 @@ def run_conv(chk):
     from pyphysim.util import conversion as CV
     LN10 = math.log(10.0)
     case0 = {"part": "conv"}
-    with chk.guard(("conversion",), case0):
+    with guard(chk, ("conversion",), case0):
         exps = [-15.0 + 0.1 * i for i in range(301)]
         lin = np.array([math.exp(e * LN10) for e in exps])               # 1e-15 .. 1e15
         dbs = np.array([-150.0 + i for i in range(301)])
@@ -886,7 +923,7 @@ def run_conv(chk):
                                 bad = {"input": v1[idx], "got": g1[idx], "want": w1[idx]}
                             chk.fail(("conversion", rn, form), cs, observed=bad, expected="equal")
     # SNR <-> Eb/N0
-    with chk.guard(("conversion", "snr_ebn0"), case0):
+    with guard(chk, ("conversion", "snr_ebn0"), case0):
         for bits in range(1, 13):
             chk.outcome("conv_bits", bits)
             for form in ("array", "pyfloat"):
@@ -909,7 +946,7 @@ def run_conv(chk):
                             chk.fail(("conversion", rn, form), cs, observed=np.ravel(got)[:3],
                                      expected=np.ravel(want_)[:3])
     # integer arguments of the docstrings
-    with chk.guard(("conversion", "pyint"), case0):
+    with guard(chk, ("conversion", "pyint"), case0):
         for rn, got, want_ in (("dB2Linear(30)", CV.dB2Linear(30), 1000.0), ("linear2dB(1000)", CV.linear2dB(1000), 30.0),
                                ("dBm2Linear(60)", CV.dBm2Linear(60), 1000.0), ("linear2dBm(1000)", CV.linear2dBm(1000), 60.0)):
             chk.count("eval_conv")
@@ -917,7 +954,7 @@ def run_conv(chk):
                 chk.fail(("conversion", rn, "pyint"), {"part": "conv", "form": "pyint", "what": rn},
                          observed=got, expected=want_)
         chk.nontriv(("conv", "grids"))
-    with chk.guard(("conversion", "zero_arguments"), case0):
+    with guard(chk, ("conversion", "zero_arguments"), case0):
         zero_forms = (("pyint", 0), ("pyfloat", 0.0), ("npfloat", np.float64(0.0)), ("array", np.zeros(3)),
                       ("neg_zero", -0.0))
         for form, z in zero_forms:
@@ -965,16 +1002,21 @@ def main(chk: Check):
             run_matrix_item(chk, fam, member, A)
 
     def worker(i, n, c):
-        for fam, member, A in shard(matrix_items(c.tier), i, n):
-            if not is_head(fam, A):
-                run_matrix_item(c, fam, member, A)
-        for fam, member, X, d in shard(update_items(c.tier), i, n):
-            run_update(c, {"part": "update", "fam": fam, "member": member, "X": X, "d": d,
-                           "battery": member == 0})
-        for fam, member, A, B in shard(chordal_pairs(c.tier), i, n):
-            run_chordal(c, {"part": "chordal", "fam": fam, "member": member, "A": A, "B": B})
+        try:
+            for fam, member, A in shard(matrix_items(c.tier), i, n):
+                if not is_head(fam, A):
+                    run_matrix_item(c, fam, member, A)
+            for fam, member, X, d in shard(update_items(c.tier), i, n):
+                run_update(c, {"part": "update", "fam": fam, "member": member, "X": X, "d": d,
+                               "battery": member == 0})
+            for fam, member, A, B in shard(chordal_pairs(c.tier), i, n):
+                run_chordal(c, {"part": "chordal", "fam": fam, "member": member, "A": A, "B": B})
+        except Broken as e:             # carried to the parent (a worker cannot exit 2 by itself)
+            c.extra["broken_in_worker"] = str(e)
 
     run_shards(chk, worker)
+    if chk.extra.get("broken_in_worker"):
+        raise Broken(chk.extra["broken_in_worker"])
     run_conv(chk)
     chk.sample({"part": "matrix", "fam": "rint3", "member": 5, "A": np.array([[1], [-1], [0]])})
     chk.sample({"part": "update", "fam": "hpd0.1", "member": 0, "X": F.hpd(0, 2, 0.1), "d": np.array([0.5, 10.0])})
